@@ -142,7 +142,8 @@ func optClass(o scOpt) string {
 	if !o.hasVal {
 		return "none"
 	}
-	if n, err := strconv.ParseInt(o.val, 0, 64); err == nil {
+	// the two sizes are decimal numbers (F60: no octal, no hex)
+	if n, err := strconv.ParseInt(o.val, 10, 64); err == nil {
 		return fmt.Sprintf("num:%d", n)
 	}
 	return "text"
@@ -297,7 +298,7 @@ func schemaCmd(args []string) int {
 				opts = append(opts, scOpt{"entries_per_node ", " 4", true})
 			case 7:
 				optMut = "hex/octal spelling"
-				opts = append(opts, scOpt{"entries_per_node" + dupSuffix(opts), gen.Pick(r, []string{"0x20", "017", "1_000", "0X1f"}), true})
+				opts = append(opts, scOpt{"entries_per_node" + dupSuffix(opts), gen.Pick(r, []string{"0x20", "017", "0100", "1_000", "0X1f", "0b11", "0o17"}), true})
 			}
 		}
 		// a duplicate produced by dupSuffix marker is really a duplicate name: strip the marker
